@@ -9,6 +9,7 @@ import Penguin.Lemmas.MuxStep
 import Penguin.Lemmas.PairCor
 import Penguin.Lemmas.MuxBound
 import Penguin.Lemmas.MuxOnce
+import Penguin.Lemmas.MuxDest
 
 namespace Penguin.C07
 open Penguin Penguin.Mux
@@ -111,6 +112,25 @@ theorem simultaneous_open_collision (e : EP) (fid req rwnd port : Nat) (host : B
 theorem flow_id_zero_never_in_use (o : Opts) (ops : List Mux.Op) :
     lookup (runOps { opts := o } ops).flows 0 = none :=
   (reachable_bnd o ops).zero
+
+/-- The accepting application sees exactly the requested host bytes and port — and keeps seeing them:
+    over every history of stimuli of one endpoint and every continuation of it (application calls,
+    deliveries of anything a peer may send, faults, the wind-down), a stream object is never removed
+    or renumbered and its flow id and its target — the host bytes and port of the `Connect` that
+    created it (`accepted_stream_shows_target`), which `accept` shows (`accept_returns_stream`) — never
+    change. (`Lemmas/MuxDest.lean`: a relation proved for every function of the endpoint model.) -/
+theorem stream_target_never_changes (o : Opts) (ops more : List Mux.Op) (k : Nat) (ob : Obj)
+    (h : (runOps { opts := o } ops).objs[k]? = some ob) :
+    ∃ ob', (runOps { opts := o } (ops ++ more)).objs[k]? = some ob' ∧
+      ob'.fid = ob.fid ∧ ob'.destHost = ob.destHost ∧ ob'.destPort = ob.destPort :=
+  object_identity_is_stable _ ops more k ob h
+
+/-! Non-vacuity: a `Connect` for "a":80 creates object 0; after it is accepted, written to, finished
+    by the peer and dropped, object 0 still shows flow 5 and "a":80. -/
+example : ((runOps { opts := {} } [.deliver (.msg (.frame (.connect 5 4 80 [97])))]).objs[0]?).map (·.destHost) = some [97] := by decide
+example : ((runOps { opts := {} } ([.deliver (.msg (.frame (.connect 5 4 80 [97])))] ++
+    [.accept, .write 0 [1, 2], .deliver (.msg (.frame (.finish 5))), .dropStream 0])).objs[0]?).map
+      (fun ob => (ob.fid, ob.destHost, ob.destPort)) = some (5, [97], 80) := by decide
 
 /-- Each stream request is answered at most once — with a stream, `FlowIdRejected` or `Closed` — and
     nothing is answered that was not asked: for every history of stimuli of one endpoint (application
